@@ -830,7 +830,7 @@ func (d decomposed192) powexp10(o int16, trunc int8) (decomposed192, int8) {
 		p10 /= 2
 	}
 
-	if int64(d.exp)+int64(r.exp) > math.MaxInt16 {
+	if int64(d.exp)+int64(r.exp) > math.MaxInt16-58*2 {
 		return dinf, trunc
 	}
 
